@@ -585,6 +585,15 @@ def configs():
     C["conflict-both-broken"] = ({DEP5_REL: "garbage", TOML_REL: "version = "}, [(TOML_REL, "x")], "e")
     C["conflict-nested"] = ({DEP5_REL: CLI_DEP5_OK, "sub/REUSE.toml": CLI_TOML_OK, "sub/x.py": HDR}, [("sub/REUSE.toml", ok_doc)], "g")
     C["duplicate-license"] = ({"LICENSES/MIT.md": "x\n"}, [], None)
+    # licence texts are project files too: whatever bytes they hold, every command must end normally (spdx copies the text
+    # of a LicenseRef- licence into the document)
+    lr_user = {"lr.py": "# SPDX-FileCopyrightText: 2020 J\n# SPDX-License-Identifier: LicenseRef-odd\n"}
+    C["licref-text-latin1"] = (dict(lr_user, **{"LICENSES/LicenseRef-odd.txt": "caf\xe9 licence\n".encode("latin-1")}), [], None)
+    C["licref-text-invalid-utf8"] = (dict(lr_user, **{"LICENSES/LicenseRef-odd.txt": b"\xff\xfe\xc3(\n"}), [], None)
+    C["licref-text-nul"] = (dict(lr_user, **{"LICENSES/LicenseRef-odd.txt": b"text\x00\x00more\n"}), [], None)
+    C["licref-text-binary"] = (dict(lr_user, **{"LICENSES/LicenseRef-odd.txt": bytes(range(256)) * 4}), [], None)
+    C["licref-text-empty"] = (dict(lr_user, **{"LICENSES/LicenseRef-odd.txt": b""}), [], None)
+    C["license-text-latin1"] = ({"LICENSES/ISC.txt": "caf\xe9 ISC\n".encode("latin-1")}, [], None)
     return C
 
 
